@@ -29,6 +29,8 @@ var (
 	Cause  = goerrors.New("cause")
 	Cause2 = goerrors.New("cause2")
 	Other  = goerrors.New("other")
+	// Marked is a stackless cause that is already an assertion failure.
+	Marked = errors.WithAssertionFailure(goerrors.New("marked cause"))
 )
 
 // OtherStack is an error-valued format argument that has a stack of its own
@@ -51,6 +53,7 @@ var ShapeNames = []string{
 	4: "join-one",       // Join of a single error
 	5: "join-nil-among", // Join of two errors with a nil between them
 	6: "empty-fmt-args", // empty format with arguments
+	7: "marked-cause",   // the cause already carries an assertion-failure marker (no stack)
 }
 
 // Unknown is returned as domain for a name that has no case, NoShape for a
@@ -220,12 +223,16 @@ func H(name string, shape, depth int) (dom string, err error) {
 		switch shape {
 		case 0:
 			return "", errors.HandleAsAssertionFailure(Cause)
+		case 7:
+			return "", errors.HandleAsAssertionFailure(Marked)
 		}
 		return NoShape, nil
 	case "errors.HandleAsAssertionFailureDepth":
 		switch shape {
 		case 0:
 			return "", errors.HandleAsAssertionFailureDepth(depth, Cause)
+		case 7:
+			return "", errors.HandleAsAssertionFailureDepth(depth, Marked)
 		}
 		return NoShape, nil
 	case "errors.Join":
@@ -392,12 +399,16 @@ func H(name string, shape, depth int) (dom string, err error) {
 		switch shape {
 		case 0:
 			return "", errutil.HandleAsAssertionFailure(Cause)
+		case 7:
+			return "", errutil.HandleAsAssertionFailure(Marked)
 		}
 		return NoShape, nil
 	case "errutil.HandleAsAssertionFailureDepth":
 		switch shape {
 		case 0:
 			return "", errutil.HandleAsAssertionFailureDepth(depth, Cause)
+		case 7:
+			return "", errutil.HandleAsAssertionFailureDepth(depth, Marked)
 		}
 		return NoShape, nil
 	case "errutil.JoinWithDepth":
@@ -641,12 +652,16 @@ func (t *T) G(name string, shape, depth int) (dom string, err error) {
 		switch shape {
 		case 0:
 			return "", errors.HandleAsAssertionFailure(Cause)
+		case 7:
+			return "", errors.HandleAsAssertionFailure(Marked)
 		}
 		return NoShape, nil
 	case "errors.HandleAsAssertionFailureDepth":
 		switch shape {
 		case 0:
 			return "", errors.HandleAsAssertionFailureDepth(depth, Cause)
+		case 7:
+			return "", errors.HandleAsAssertionFailureDepth(depth, Marked)
 		}
 		return NoShape, nil
 	case "errors.Join":
@@ -813,12 +828,16 @@ func (t *T) G(name string, shape, depth int) (dom string, err error) {
 		switch shape {
 		case 0:
 			return "", errutil.HandleAsAssertionFailure(Cause)
+		case 7:
+			return "", errutil.HandleAsAssertionFailure(Marked)
 		}
 		return NoShape, nil
 	case "errutil.HandleAsAssertionFailureDepth":
 		switch shape {
 		case 0:
 			return "", errutil.HandleAsAssertionFailureDepth(depth, Cause)
+		case 7:
+			return "", errutil.HandleAsAssertionFailureDepth(depth, Marked)
 		}
 		return NoShape, nil
 	case "errutil.JoinWithDepth":
